@@ -255,3 +255,9 @@ def run_pair(prop, cond, args, model):
     except Exception as ex:  # noqa: BLE001
         return ('UNEXPECTED-EXCEPTION', type(ex).__name__), None
     return got, exp
+
+
+def slice_nonempty(start, stop, step, n):
+    """Usable inside PEP316 preconditions: does slice(start, stop, step) select anything on length n?"""
+    from vf.refmodels import ref_slice_positions
+    return len(ref_slice_positions(slice(start, stop, step), n)) > 0
